@@ -23,11 +23,18 @@ func TestVerifC09_mlkem_ek(t *testing.T) {
 	defer r.Finish()
 	r.Rule("per parameter set (k = 2, 3, 4) and per derived key (1 quick / 3 thorough seeds): the key itself, every single-bit flip of it (all 8*(384k+32) bits; quick: ML-KEM-768 only), " +
 		"and every one of the 256k coefficient positions set to each of q-1, q, q+1, 0xE00, 4095, 0; accepted => all coefficients < q and re-marshal == input; " +
-		"a string with all coefficients < q that is refused is counted; distinct = distinct (scheme, input bytes)")
+		"a string with all coefficients < q that is refused is counted; every case also through PublicKey.Unpack on a key object that already holds the valid key, and before it; distinct = distinct (scheme, input bytes)")
+	type unpacker interface {
+		Unpack([]byte) error
+		MarshalBinary() ([]byte, error)
+	}
 	for _, sc := range []struct {
-		s kem.Scheme
-		k int
-	}{{mlkem512.Scheme(), 2}, {mlkem768.Scheme(), 3}, {mlkem1024.Scheme(), 4}} {
+		s   kem.Scheme
+		k   int
+		new func() unpacker
+	}{{mlkem512.Scheme(), 2, func() unpacker { return new(mlkem512.PublicKey) }},
+		{mlkem768.Scheme(), 3, func() unpacker { return new(mlkem768.PublicKey) }},
+		{mlkem1024.Scheme(), 4, func() unpacker { return new(mlkem1024.PublicKey) }}} {
 		sc := sc
 		var cases []c09ref.Case
 		for i, seed := range verifmc.SeedsN(sc.s.SeedSize(), r.Seed(), r.Pick(4, 6)) {
@@ -51,13 +58,28 @@ func TestVerifC09_mlkem_ek(t *testing.T) {
 			}
 		}
 		dec := make([]verifmc.DecCase, len(cases))
+		var own []byte
 		for i, cs := range cases {
 			dec[i] = verifmc.DecCase{Name: cs.Name, Class: cs.Class, Data: cs.Data}
+			if cs.Class == "valid-lib" && own == nil {
+				own = cs.Data
+			}
 		}
 		r.CheckDecoder(verifmc.DecSpec{Entry: sc.s.Name() + ".UnmarshalBinaryPublicKey", Cases: dec, RefAll: true,
 			Ref: func(in []byte) verifmc.DecOracle {
 				v := c09ref.MLKEMVerdict(in, sc.k)
 				return verifmc.DecOracle{Member: v.Member, Reason: v.Reason}
+			},
+			// PublicKey.Unpack on a key object that already holds the library's own key (every case derives from it)
+			DefaultBase: own,
+			Seq: func(first, second []byte) verifmc.DecResult {
+				pk := sc.new()
+				_ = pk.Unpack(first)
+				if err := pk.Unpack(second); err != nil {
+					return verifmc.DecResult{}
+				}
+				out, _ := pk.MarshalBinary()
+				return verifmc.DecResult{Accepted: true, Reenc: out}
 			},
 			Lib: func(in []byte) verifmc.DecResult {
 				keep := c09ref.Clone(in)
